@@ -32,7 +32,7 @@ class PrimDec(Stream):
             else: encs[0] = ('go=ref', r)
             for src, hx in encs:
                 out.append(dict(c, hex_in=hx, src=src))
-        go = [{k: v for k, v in c.items() if k in ('kind', 'tag', 'etag', 'pre', 'nalt')} for c in out]
+        go = [{k: v for k, v in c.items() if k in ('kind', 'tag', 'etag', 'pre', 'post', 'nalt')} for c in out]
         for g, c in zip(go, out): g['hex'] = c['hex_in']
         obs2 = C.harness_call(harness, "aperdec", go, timeout=self.harness_timeout)
         return out, obs2
